@@ -70,8 +70,8 @@ def control_for(pki, kind, port='25'):
 
 class Case:
     """mode: 'script' | 'tls'; clear/tls: items ('S', bytes) | ('W',); hs: per accepted STARTTLS
-    'o' (complete the handshake), 'g' (the next clear item is sent instead of a ClientHello: OpenSSL
-    takes `eat` bytes of it), 'c' (close), 't' (stay silent)"""
+    'o' (complete the handshake), 'g<n>' (the next clear item is sent instead of a ClientHello: OpenSSL
+    takes n bytes of it; plain 'g' = 5, the record header), 'c' (close), 't' (stay silent)"""
 
     def __init__(self, mode, cert='u', port='25', clear=(), tls=(), hs=(), eat=5, tag='', clean=True):
         self.mode, self.cert, self.port = mode, cert, port
@@ -119,8 +119,11 @@ def wire_tok(items):
 
 
 def hs_tok(case):
-    m = {'o': 'o', 'g': 'f%d' % case.eat, 'c': 'f0', 't': 't0'}
-    return ','.join(m[h] for h in case.hs) or '-'
+    def one(h):
+        if h.startswith('g'):
+            return 'f%d' % (int(h[1:]) if len(h) > 1 else case.eat)
+        return {'o': 'o', 'c': 'f0', 't': 't0'}[h]
+    return ','.join(one(h) for h in case.hs) or '-'
 
 
 def model_line(case):
@@ -270,6 +273,7 @@ class TlsClient:
         self.eof = False
         self.hs = list(case.hs)
         self.last_line = b''
+        self.stls_sent = False     # a STARTTLS line went out in clear and no handshake was tried since
         self.nq = 0
         self.unsolicited = 0
 
@@ -313,7 +317,7 @@ class TlsClient:
                 if d == b'':
                     return b''
                 self.inb.write(d)
-            except ssl.SSLZeroReturnError:
+            except (ssl.SSLZeroReturnError, ssl.SSLEOFError):
                 return b''
             except ssl.SSLError:
                 self.obs.append('R/c/000/0')       # bytes that are not TLS records after the handshake
@@ -356,6 +360,8 @@ class TlsClient:
         for ln in lines_of(b):
             self.obs.append('S/%s/%s' % (chan, ln.hex() or '_'))
             self.last_line = ln
+            if chan == 'c' and ln.upper().startswith(b'STARTTLS'):
+                self.stls_sent = True
         if self.tls is None:
             self._send(b)
         else:
@@ -404,7 +410,9 @@ class TlsClient:
             got = self.wait_reply()
             if not got:
                 break
-            if self.tls is None and any(c == '220' for c, _ in got) and self.last_line.upper().startswith(b'STARTTLS') and self.hs:
+            if self.tls is None and any(c == '220' for c, _ in got) and self.stls_sent and self.hs:
+                # the server said "ready for tls" (to a client that may have pipelined more behind STARTTLS)
+                self.stls_sent = False
                 h = self.hs.pop(0)
                 if h == 'o':
                     if self.handshake():
@@ -422,9 +430,15 @@ class TlsClient:
                     break
                 # 'g': the next clear item goes out in place of the ClientHello
         # the end: say nothing more, collect what the server still sends
-        if self.case.hs[-1:] == ['t'] and not self.hs:
+        if self.case.hs[-1:] == ['t'] and not self.hs and self.tls is None:
             pass
         else:
+            if self.tls is not None and not self.eof:
+                try:
+                    self.tls.unwrap()              # close_notify
+                except ssl.SSLError:
+                    pass
+                self._pump()
             try:
                 self.s.shutdown(socket.SHUT_WR)
             except OSError:
